@@ -423,6 +423,9 @@ def run(prog, rep):
     check_recorded_before_next_step(prog, rep, 'R14')
     rep.rule('R16', 'a topology-wide view keyed by name is backed by a name-uniqueness test over all the elements it lists', floor=3)
     check_name_keyed_views(prog, rep, 'R16')
+    rep.rule('R17', 'a handler that undoes a partly made connection and re-raises catches Exception (no peerless port is left behind)', floor=5)
+    from .c09 import check_rollback_handler_breadth
+    check_rollback_handler_breadth(prog, rep, 'R17')
     rep.rule('R15', 'unpeer removes ports only after establishing that the two services peer (no port is left without a peer)', floor=2)
     from .c08 import check_unpeer_shape
     check_unpeer_shape(prog, rep, 'R15')
